@@ -3,12 +3,12 @@ package c01
 import (
 	"bytes"
 	"crypto"
-	_ "crypto/sha256"
-	_ "crypto/sha512"
 	"crypto/ecdsa"
 	"crypto/ed25519"
 	"crypto/elliptic"
 	"crypto/sha1"
+	_ "crypto/sha256"
+	_ "crypto/sha512"
 	"encoding/binary"
 	"math/big"
 
